@@ -365,6 +365,15 @@ func c16(raw json.RawMessage, resp *drv.Response) error {
 	}
 	for rep := 0; rep < req.NRandom; rep++ {
 		d := randData(cd, rng, nConst, nWires)
+		// structured evaluation points next to the random ones: first coordinate 1 (not the point 1 itself), base-field, purely imaginary
+		switch rep % 4 {
+		case 1:
+			d.zeta = gf.E{big.NewInt(1), new(big.Int).Add(one, drv.RandBelow(rng, new(big.Int).Sub(bigP, one)))}
+		case 2:
+			d.zeta = gf.E{drv.RandBelow(rng, bigP), big.NewInt(0)}
+		case 3:
+			d.zeta = gf.E{big.NewInt(0), new(big.Int).Add(one, drv.RandBelow(rng, new(big.Int).Sub(bigP, one)))}
+		}
 		var gv []gf.E
 		if req.Part == "real" {
 			var err error
